@@ -105,6 +105,7 @@ pub struct Panic {
 
 thread_local! {
     static LAST_PANIC: RefCell<Option<Panic>> = const { RefCell::new(None) };
+    static TRAP_DEPTH: std::cell::Cell<u32> = const { std::cell::Cell::new(0) };
 }
 
 pub fn classify(msg: &str) -> &'static str {
@@ -148,6 +149,10 @@ pub fn install_panic_hook() {
             None => ("?".to_string(), 0),
         };
         let class = classify(&msg);
+        if TRAP_DEPTH.with(|d| d.get()) == 0 {
+            // a panic outside any trap is the harness's own failure: say so (the run ends inconclusive)
+            println!("HARNESS PANIC at {}:{}: {}", file, line, msg);
+        }
         LAST_PANIC.with(|c| {
             *c.borrow_mut() = Some(Panic { class, file, line, msg });
         });
@@ -156,7 +161,10 @@ pub fn install_panic_hook() {
 
 /// Runs `f`, trapping any panic of the code under observation.
 pub fn trap<T>(f: impl FnOnce() -> T) -> Result<T, Panic> {
-    match panic::catch_unwind(AssertUnwindSafe(f)) {
+    TRAP_DEPTH.with(|d| d.set(d.get() + 1));
+    let r = panic::catch_unwind(AssertUnwindSafe(f));
+    TRAP_DEPTH.with(|d| d.set(d.get() - 1));
+    match r {
         Ok(v) => Ok(v),
         Err(_) => Err(LAST_PANIC.with(|c| c.borrow_mut().take()).unwrap_or(Panic {
             class: "Library",
